@@ -82,11 +82,12 @@ func init() {
 			return Obs{"error": "no conn"}
 		}
 		tag := op.str("tag")
+		wait := time.Duration(op.num("timeout_ms", 20000)) * time.Millisecond
 		_ = cl.conn.SetWriteDeadline(time.Now().Add(3 * time.Second))
 		if _, err := cl.conn.Write([]byte(op.str("line") + "\r\n")); err != nil {
 			return Obs{"recv": "", "how": "write-error"}
 		}
-		b, how := cl.readUntil(contDone(tag), 5*time.Second)
+		b, how := cl.readUntil(contDone(tag), wait)
 		if how != "ok" || taggedDone(tag)(b, false) {
 			return Obs{"recv": b2s(b), "how": how}
 		}
@@ -94,7 +95,7 @@ func init() {
 		if _, err := cl.conn.Write([]byte(op.str("literal") + "\r\n")); err != nil {
 			return Obs{"recv": b2s(b), "how": "write-error"}
 		}
-		b2, how2 := cl.readUntil(taggedDone(tag), 5*time.Second)
+		b2, how2 := cl.readUntil(taggedDone(tag), wait)
 		return Obs{"recv": b2s(append(b, b2...)), "how": how2}
 	})
 }
